@@ -55,7 +55,7 @@ def _job(job):
     rnd = random.Random(seed)
     out, cnt, keys, sample = [], 0, set(), None
     combos = list(itertools.product(SIDES, SIDES, SIDES, [True, False]))
-    for ti, (b, l, r) in enumerate(nbspace.triples(seed, n, max_edits=3)):
+    for ti, (b, l, r) in enumerate(nbspace.triples(seed, n, max_edits=3, tail=True)):
         picks = [(s, s, s, t) for s in SIDES for t in (True, False)] + rnd.sample(combos, 4)
         for (m, i, o, t) in picks:
             a = mergespace.args_for(m, i, o, t)
@@ -86,12 +86,23 @@ def _job(job):
                             % ((m, i, o, t), first_difference(nbspace.to_plain(merged), nbspace.to_plain(want))), where))
             lines = mo.source_lines(b) | mo.source_lines(l) | mo.source_lines(r)
             fabricated = [ln for ln in mo.source_lines(merged) if ln.strip() and ln not in lines]
-            glued = [ln for ln in fabricated if any(ln[:k] in lines and ln[k:] in lines for k in range(1, len(ln)))]
+            glued = [ln for ln in fabricated if _glue_of(ln, lines)]
             if fabricated and len(glued) == len(fabricated):
-                out.append(('fabricated-glue', 'strategy %r: two input lines are glued into one (the first had no trailing newline): %r' % ((m, i, o, t), glued[:2]), where))
+                out.append(('fabricated-glue', 'strategy %r: input lines are glued into one (the first had no trailing newline): %r' % ((m, i, o, t), glued[:2]), where))
             elif fabricated:
                 out.append(('fabricated', 'strategy %r: merged source has non-blank line(s) absent from all three inputs: %r' % ((m, i, o, t), fabricated[:3]), where))
     return cnt, out, list(keys), sample
+
+
+def _glue_of(ln, lines):
+    """True if `ln` is the concatenation of two or three non-empty lines of the inputs: the versions of an unterminated last line
+    (the rewritten one, the kept one) and, where the other side went on after terminating it, the line it appended"""
+    for k in range(1, len(ln)):
+        if ln[:k] in lines:
+            rest = ln[k:]
+            if rest in lines or any(rest[:j] in lines and rest[j:] in lines for j in range(1, len(rest))):
+                return True
+    return False
 
 
 def replay_case(where):
